@@ -84,7 +84,8 @@ func runC02(r *run) {
 			for _, tpl := range []string{"{{ L }}", "{{ L|default:\"d\" }}", "{% cycle L \"x\" %}", "{% firstof L %}", "{% for x in L_list %}{{ x }}{% endfor %}", "{% with y=L %}{{ y }}{% endwith %}",
 				"{{ L|upper }}", "{{ L|lower|capfirst }}", "{{ L_map.k }}", "{% for k, v in L_map %}{{ v }}{% endfor %}", "{{ \"a\"|add:L }}", "{% set y = L %}{{ y }}", "{{ L_fn() }}", "{{ L_struct.F }}",
 				"{% macro m(p) %}{{ p }}{% endmacro %}{{ m(L) }}", "{{ L|default_if_none:\"d\" }}", "{{ L_list|first }}", "{{ L_list|join:\",\" }}", "{% ifchanged L %}{{ L }}{% endifchanged %}", "{{ L|truncatechars:99 }}",
-				"{% if L %}{{ L }}{% endif %}", "{{ L_list.0 }}", "{{ L|stringformat:\"%v\" }}", "{{ L|stringformat:\"%s\" }}"} {
+				"{% if L %}{{ L }}{% endif %}", "{{ L_list.0 }}", "{% cycle L \"x\" as cyc %}{% cycle cyc %}{% cycle cyc %}", "{% for q in L_list %}{% cycle q L as cyc %}{% cycle cyc %}{% endfor %}",
+				"{{ L_list|join:L }}", "{{ L_list|join:\", \" }}", "{{ \"a,b\"|split:\",\"|join:L }}", "{% firstof nothing L %}", "{% with sep=L %}{{ L_list|join:sep }}{% endwith %}", "{{ L|stringformat:\"%v\" }}", "{{ L|stringformat:\"%s\" }}"} {
 				emit(caseT{"goleaf", []string{hx(strings.ReplaceAll(tpl, "L", leaf)), leaf}})
 			}
 		}
